@@ -90,6 +90,17 @@ where
     triple::<M::Probability>(m.quantile_function(from_u128(q)))
 }
 
+/// a constructor is run with the symbols as an exact-size (`TrustedLen`) iterator and once more as an
+/// iterator without an exact size (`filter`; `Zip` takes a different code path for those): the two
+/// must agree; if only one accepts, the accepted model is returned so that the acceptance shows
+fn both_iter_kinds<T>(a: Result<T, ()>, b: Result<T, ()>) -> Result<T, ()> {
+    match (a, b) {
+        (Ok(m), Ok(_)) => Ok(m),
+        (Err(()), Err(())) => Err(()),
+        (Ok(m), Err(())) | (Err(()), Ok(m)) => Ok(m),
+    }
+}
+
 /// the `…_fast` constructors with `n` equal `f64` weights (D13 glue)
 pub trait ProbFast: Sized {
     fn fast_ncdec<const P: usize>(syms: &[usize], n: usize) -> Result<Box<dyn DynModel>, ()>;
@@ -101,19 +112,17 @@ macro_rules! impl_prob_fast {
         impl ProbFast for $Pr {
             fn fast_ncdec<const P: usize>(syms: &[usize], n: usize) -> Result<Box<dyn DynModel>, ()> {
                 let w = vec![1.0f64; n];
-                NonContiguousCategoricalDecoderModel::<usize, $Pr, Vec<($Pr, usize)>, P>::from_symbols_and_floating_point_probabilities_fast::<f64>(
-                    syms.iter().copied(),
-                    &w,
-                    None,
+                both_iter_kinds(
+                    NonContiguousCategoricalDecoderModel::<usize, $Pr, Vec<($Pr, usize)>, P>::from_symbols_and_floating_point_probabilities_fast::<f64>(syms.iter().copied(), &w, None),
+                    NonContiguousCategoricalDecoderModel::<usize, $Pr, Vec<($Pr, usize)>, P>::from_symbols_and_floating_point_probabilities_fast::<f64>(syms.iter().copied().filter(|_| true), &w, None),
                 )
                 .map(|m| Box::new(NcDecW::<$Pr, P> { m, view: false }) as Box<dyn DynModel>)
             }
             fn fast_ncenc<const P: usize>(syms: &[usize], n: usize) -> Result<Box<dyn DynModel>, ()> {
                 let w = vec![1.0f64; n];
-                NonContiguousCategoricalEncoderModel::<usize, $Pr, P>::from_symbols_and_floating_point_probabilities_fast::<f64>(
-                    syms.iter().copied(),
-                    &w,
-                    None,
+                both_iter_kinds(
+                    NonContiguousCategoricalEncoderModel::<usize, $Pr, P>::from_symbols_and_floating_point_probabilities_fast::<f64>(syms.iter().copied(), &w, None),
+                    NonContiguousCategoricalEncoderModel::<usize, $Pr, P>::from_symbols_and_floating_point_probabilities_fast::<f64>(syms.iter().copied().filter(|_| true), &w, None),
                 )
                 .map(|m| Box::new(NcEncW::<$Pr, P> { m }) as Box<dyn DynModel>)
             }
@@ -602,10 +611,9 @@ macro_rules! impl_lookup_wrappers {
             fn fast_nclookup<const P: usize>(syms: &[usize], n: usize) -> Option<Result<Box<dyn DynModel>, ()>> {
                 let w = vec![1.0f64; n];
                 Some(
-                    NonContiguousLookupDecoderModel::<usize, $Pr, Vec<($Pr, usize)>, Box<[$Pr]>, P>::from_symbols_and_floating_point_probabilities_fast::<f64>(
-                        syms.iter().copied(),
-                        &w,
-                        None,
+                    both_iter_kinds(
+                        NonContiguousLookupDecoderModel::<usize, $Pr, Vec<($Pr, usize)>, Box<[$Pr]>, P>::from_symbols_and_floating_point_probabilities_fast::<f64>(syms.iter().copied(), &w, None),
+                        NonContiguousLookupDecoderModel::<usize, $Pr, Vec<($Pr, usize)>, Box<[$Pr]>, P>::from_symbols_and_floating_point_probabilities_fast::<f64>(syms.iter().copied().filter(|_| true), &w, None),
                     )
                     .map(|m| Box::new(NcLookupW::<$Pr, P> { m, view: false }) as Box<dyn DynModel>),
                 )
